@@ -60,7 +60,8 @@ def run_mutant(m, repo=None, keep=False):
         if r.returncode == 1:
             want = m.get("expect_rule")
             import re as _re
-            lines = [l for l in out.splitlines() if _re.match(r"^  \w+ [^ ]+:\d+", l) and " -- " in l]
+            lines = [l for l in out.splitlines() if l.startswith("  ") and " -- " in l
+                     and not _re.match(r"^\s+\w+\s+\d+/\d+\s", l)]
             if want is None or any(l.strip().startswith(want + " ") for l in lines):
                 return "caught", "; ".join(l.strip()[:200] for l in lines[:2])
             return "missed", "fired, but not rule %s: %s" % (want, "; ".join(l.strip()[:160] for l in lines[:2]))
